@@ -295,6 +295,32 @@ def special_definitions(ctx, rng):
                                "interpreted": repr(res[1])[:400], "workload": "special-definitions"})
             else:
                 ctx.event("special_definitions_checked")
+    # structures whose generated reader text is the same and whose inline members carry the same local tag with
+    # different bodies (a reader is made per structure, never shared by its text)
+    twins = ("struct request { uint8 kind; struct hdr { uint16 id; uint16 len; } h; uint8 tail; };\n"
+             "struct reply { uint8 kind; struct hdr { uint8 id; uint8 len; uint8 code; } h; uint8 tail; };\n"
+             "struct replies { uint8 kind; struct hdr { uint32 id; } h; uint8 tail; };\n"
+             "struct one { uint8 n; struct item { uint8 a; } items[2]; uint16 t; };\n"
+             "struct two { uint8 n; struct item { uint16 a; uint8 b; } items[2]; uint16 t; };")
+    for endian in "<>":
+        for align in (False, True):
+            data = bytes(rng.randrange(1, 250) for _ in range(40))
+            res = []
+            for compiled in (True, False):
+                try:
+                    cs = lib.load(twins, endian, align, compiled)
+                    res.append([(len(getattr(cs, n)), outcome(getattr(cs, n), data), outcome(getattr(cs, n), data[:4]))
+                                for n in ("request", "reply", "replies", "one", "two")])
+                except Exception as e:  # noqa: BLE001
+                    res.append(("load", type(e).__name__))
+            ctx.evaluation(("same-source-twins", endian, align))
+            ctx.cell("special:same-reader-text-other-member-types")
+            if res[0] != res[1] or res[0][0] == "load":
+                ctx.violation("special", "readers-differ-for-structures-with-the-same-reader-text",
+                              {"text": twins, "endian": endian, "align": align, "compiled": repr(res[0])[:500],
+                               "interpreted": repr(res[1])[:500], "workload": "special-definitions"})
+            else:
+                ctx.event("special_definitions_checked")
     # pointer types that are signed or not struct-packed: whatever a pointer's value is then, it is the same one in
     # both readers (scalars, fixed and null-terminated arrays, behind a dynamic field)
     ptext = "struct T { uint8 lead; uint16 *p; uint8 x; uint16 *q[2]; uint8 n; char s[n & 3]; uint16 *r; uint16 *z[]; uint8 t; };"
